@@ -15,7 +15,7 @@ func init() {
 	register(&propCheck{
 		id:    "C06",
 		level: "other",
-		explanation: "Agreement of the filesystem API with a reference model over programs of calls is behavioural and is not decidable statically. Decided here are three structural clauses of the statement's second sentence: (Z1) 'leaves no file handle open — on success, failure or cancellation': for every call in package filesystem that yields a file handle (GenericOpen, OpenFile, CreateFile, TempFile, the backend's Open/Create/OpenFile, zip.File.Open, the archive-reader helpers that return the opened file), on the side where a handle exists either the handle is handed to the caller (returned, stored in a returned structure) or every path to an exit passes a Close on it — explicit, or deferred on that path; (Z2) 'a copy never changes its source': in the copy call graph every mutating filesystem method is invoked on the destination filesystem parameter, never on the source one, and the source handle is only read; (Z3) a move removes its source only on the nil side of the copy/rename it falls back to. Decided on SSA; nothing is executed. (Z4) 'the resulting tree matches the model' needs every write to replace: a handle opened for writing with O_CREATE carries O_TRUNC (or O_APPEND/O_EXCL). Not decided: values returned, error kinds, resulting trees, termination, behaviour when source and destination overlap on the same filesystem.",
+		explanation: "Agreement of the filesystem API with a reference model over programs of calls is behavioural and is not decidable statically. Decided here are three structural clauses of the statement's second sentence: (Z1) 'leaves no file handle open — on success, failure or cancellation': for every call in package filesystem that yields a file handle (GenericOpen, OpenFile, CreateFile, TempFile, the backend's Open/Create/OpenFile, zip.File.Open, the archive-reader helpers that return the opened file), on the side where a handle exists either the handle is handed to the caller (returned, stored in a returned structure) or every path to an exit passes a Close on it — explicit, or deferred on that path; (Z2) 'a copy never changes its source': in the copy call graph every mutating filesystem method is invoked on the destination filesystem parameter, never on the source one, and the source handle is only read; (Z3) a move removes its source only on the nil side of the copy/rename it falls back to. Decided on SSA; nothing is executed. (Z5) on the same filesystem object the resolved destination handed to the copy workers is compared with the source and no worker is reachable where they are equal — 'a copy never changes its source, also when source and destination overlap'; (Z6) the recursive folder worker is reached only after a containment test between source and resolved destination — 'a call terminates' (violated by the pinned sources: known finding K8); (Z4) 'the resulting tree matches the model' needs every write to replace: a handle opened for writing with O_CREATE carries O_TRUNC (or O_APPEND/O_EXCL). Not decided: values returned, error kinds, resulting trees, termination.",
 		run:   runC06,
 		thoroughConfigs: []string{"darwin/amd64", "windows/amd64"},
 		assumptions: []string{
@@ -47,6 +47,215 @@ func runC06(c *Ctx) {
 	c.c06CopySource()
 	c.c06MoveOrder()
 	c.c06WritersReplace()
+	c.c06Overlap()
+}
+
+// c06Overlap: "a copy never changes its source, also when source and destination overlap" / "a call terminates".
+// The copy resolves its destination first (an existing directory receives the item under its base name) and then
+// hands source and resolved destination to the workers, which create — and so truncate — every destination file.
+// (Z5) With source and destination on the same filesystem object, every path to a worker passes a comparison of the
+// source path with the very value handed to the worker as destination, and the worker is not reachable from its
+// equal side. (Z6) The folder worker, which lists the source while it creates the destination, is reached only
+// after a containment test between source and resolved destination (a destination inside the source is listed in
+// turn: the copy feeds on its own output).
+func (c *Ctx) c06Overlap() {
+	c.rule("Z5", "copy: on the same filesystem object the resolved destination handed to the workers is compared with the source, and no worker is reachable from the equal side", 2)
+	c.rule("Z6", "copy: the recursive folder worker is reached only after a containment test between the source and the resolved destination", 1)
+	f := c.fn(fsPkgRel, "CopyBetweenFSWithExclusionRegexes")
+	c.FuncsSeen[fname(f)] = true
+	si, di := paramIndexByName(f, "srcFs"), paramIndexByName(f, "destFs")
+	pi := paramIndexByName(f, "src")
+	if si < 0 || di < 0 || pi < 0 {
+		c.fatalf("C06/Z5: parameters of CopyBetweenFSWithExclusionRegexes not found")
+		return
+	}
+	srcFs, destFs, src := f.Params[si], f.Params[di], f.Params[pi]
+	// v is root, possibly cleaned
+	derivesFromOnly := func(v, root ssa.Value) bool {
+		for i := 0; i < 4; i++ {
+			if v == root {
+				return true
+			}
+			cl, ok := v.(*ssa.Call)
+			if !ok || calleeFull(&cl.Call) != "path/filepath.Clean" {
+				return false
+			}
+			v = cl.Call.Args[0]
+		}
+		return false
+	}
+	// fsTest: v compares the two filesystem objects; neq reports the != form
+	fsTest := func(v ssa.Value) (is, neq bool) {
+		b, ok := v.(*ssa.BinOp)
+		if !ok || (b.Op != token.EQL && b.Op != token.NEQ) {
+			return false, false
+		}
+		x, y := resolveValue(b.X), resolveValue(b.Y)
+		if (x == ssa.Value(srcFs) && y == ssa.Value(destFs)) || (x == ssa.Value(destFs) && y == ssa.Value(srcFs)) {
+			return true, b.Op == token.NEQ
+		}
+		return false, false
+	}
+	var workers []*ssa.Call
+	allInstrs(f, func(in ssa.Instruction) {
+		if cl, ok := in.(*ssa.Call); ok {
+			if g := staticCallee(&cl.Call); g != nil && (g.Name() == "copyFolderBetweenFSWithExclusionRegexes" || g.Name() == "copyFileBetweenFSWithExclusionPatternsWithExclusionRegexes") {
+				workers = append(workers, cl)
+			}
+		}
+	})
+	if len(workers) == 0 {
+		c.fatalf("C06/Z5: the copy no longer hands over to its folder/file workers")
+		return
+	}
+	for _, w := range workers {
+		g := staticCallee(&w.Call)
+		wd := w.Call.Args[paramIndexByName(g, "dest")]
+		key := fname(f) + "/" + g.Name() + "/same-object"
+		// the path comparison whose operands are the source and the worker's own destination value
+		var test *ssa.If
+		trueSucc := 0
+		for _, b := range f.Blocks {
+			ifi, ok := b.Instrs[len(b.Instrs)-1].(*ssa.If)
+			if !ok {
+				continue
+			}
+			v, ts := boolTest(ifi)
+			cmp, ok := v.(*ssa.BinOp)
+			if !ok || (cmp.Op != token.EQL && cmp.Op != token.NEQ) {
+				continue
+			}
+			isSrc := func(x ssa.Value) bool { return derivesFromOnly(x, src) }
+			isDst := func(x ssa.Value) bool { return derivesFromOnly(x, wd) || x == wd }
+			if (isSrc(cmp.X) && isDst(cmp.Y)) || (isSrc(cmp.Y) && isDst(cmp.X)) {
+				test = ifi
+				trueSucc = ts
+				if cmp.Op == token.NEQ {
+					trueSucc = 1 - ts
+				}
+			}
+		}
+		if test == nil {
+			c.violate("Z5", key, c.ipos(w), "the destination handed to "+g.Name()+" is never compared with the source: when the resolved destination is the source itself (Copy(\"d/f\", \"d\"), Copy(\"d\", parent of d)) the worker creates the destination anew and truncates the source before reading it")
+			continue
+		}
+		// assuming srcFs == destFs, every path from the entry to the worker passes the test
+		skip := pathPruned(f, nil, func(i ssa.Instruction) bool { return i == ssa.Instruction(test) }, func(i ssa.Instruction) bool { return i == ssa.Instruction(w) }, func(b *ssa.BasicBlock, k int) bool {
+			ifi, ok := b.Instrs[len(b.Instrs)-1].(*ssa.If)
+			if !ok {
+				return false
+			}
+			v, ts := boolTest(ifi)
+			is, neq := fsTest(v)
+			if !is {
+				return false
+			}
+			differ := 1 - ts // the edge taken when the two objects differ
+			if neq {
+				differ = ts
+			}
+			return k == differ
+		})
+		if skip != nil {
+			c.violate("Z5", key, c.ipos(w), "with source and destination on the same filesystem object there is a path to "+g.Name()+" that does not pass the comparison of the source with the resolved destination at "+c.ipos(test))
+			continue
+		}
+		// and the worker is not reachable from the equal side
+		reach := false
+		seen := map[*ssa.BasicBlock]bool{}
+		var walk func(b *ssa.BasicBlock)
+		walk = func(b *ssa.BasicBlock) {
+			if seen[b] {
+				return
+			}
+			seen[b] = true
+			if b == w.Block() {
+				reach = true
+			}
+			for _, s := range b.Succs {
+				walk(s)
+			}
+		}
+		eq := test.Block().Succs[trueSucc]
+		if eq != test.Block().Succs[1-trueSucc] {
+			walk(eq)
+		} else {
+			reach = true
+		}
+		c.check(!reach, "Z5", key, c.ipos(test), "source compared with the worker's own destination; the worker is not reachable from the equal side",
+			g.Name()+" is still reachable where the source equals the resolved destination")
+	}
+	// Z6
+	for _, w := range workers {
+		g := staticCallee(&w.Call)
+		if g.Name() != "copyFolderBetweenFSWithExclusionRegexes" {
+			continue
+		}
+		wd := w.Call.Args[paramIndexByName(g, "dest")]
+		found := ""
+		var tests []ssa.Instruction
+		allInstrs(f, func(in ssa.Instruction) {
+			cl, ok := in.(*ssa.Call)
+			if !ok {
+				return
+			}
+			n := calleeFull(&cl.Call)
+			low := strings.ToLower(n)
+			if !(n == "strings.HasPrefix" || n == "path/filepath.Rel" || strings.Contains(low, "subpath") || strings.Contains(low, "within") || strings.Contains(low, "inside") || strings.Contains(low, "contains")) {
+				return
+			}
+			hasSrc, hasDst := false, false
+			for _, a := range cl.Call.Args {
+				if operandReaches(a, src, 8) {
+					hasSrc = true
+				}
+				if operandReaches(a, wd, 8) {
+					hasDst = true
+				}
+			}
+			if hasSrc && hasDst {
+				tests = append(tests, cl)
+				found = c.ipos(cl)
+			}
+		})
+		if found != "" {
+			// with both on the same filesystem object and the source a directory, every path to the worker passes a test
+			isTest := func(i ssa.Instruction) bool {
+				for _, t := range tests {
+					if t == i {
+						return true
+					}
+				}
+				return false
+			}
+			skip := pathPruned(f, nil, isTest, func(i ssa.Instruction) bool { return i == ssa.Instruction(w) }, func(b *ssa.BasicBlock, k int) bool {
+				ifi, ok := b.Instrs[len(b.Instrs)-1].(*ssa.If)
+				if !ok {
+					return false
+				}
+				v, ts := boolTest(ifi)
+				if is, neq := fsTest(v); is {
+					differ := 1 - ts
+					if neq {
+						differ = ts
+					}
+					return k == differ
+				}
+				// the side where the source is not a directory
+				if ex, ok := v.(*ssa.Extract); ok && ex.Index == 0 {
+					if ic, ok := ex.Tuple.(*ssa.Call); ok && ic.Call.IsInvoke() && ic.Call.Method.Name() == "IsDir" && resolveValue(ic.Call.Value) == ssa.Value(srcFs) {
+						return k == 1-ts
+					}
+				}
+				return false
+			})
+			if skip != nil {
+				found = ""
+			}
+		}
+		c.check(found != "", "Z6", fname(f)+"/destination-inside-source", c.ipos(w), "containment of the resolved destination in the source is tested at "+found,
+			"the folder worker is reached without any containment test between the source and the resolved destination: for a destination inside the source (Copy(\"d\", \"d/sub\")) the worker lists the directory it is creating and copies it into itself, level after level — on the OS until the path is too long, on the in-memory filesystem without end")
+	}
 }
 
 // c06WritersReplace: "a write to a path replaces its content" in the reference model. A handle opened for
@@ -429,3 +638,42 @@ func noErrorPathTo(d *ssa.Call, r ssa.Instruction) bool {
 }
 
 var _ = token.ADD
+
+// operandReaches: target occurs among the operands v is computed from (calls, arithmetic, conversions, variadic
+// slices), without looking through phi nodes other than target itself.
+func operandReaches(v, target ssa.Value, depth int) bool {
+	if v == target {
+		return true
+	}
+	if depth == 0 || v == nil {
+		return false
+	}
+	switch x := v.(type) {
+	case *ssa.Call:
+		for _, a := range x.Call.Args {
+			if operandReaches(a, target, depth-1) {
+				return true
+			}
+		}
+		if x.Call.IsInvoke() {
+			return operandReaches(x.Call.Value, target, depth-1)
+		}
+	case *ssa.BinOp:
+		return operandReaches(x.X, target, depth-1) || operandReaches(x.Y, target, depth-1)
+	case *ssa.Convert:
+		return operandReaches(x.X, target, depth-1)
+	case *ssa.ChangeType:
+		return operandReaches(x.X, target, depth-1)
+	case *ssa.MakeInterface:
+		return operandReaches(x.X, target, depth-1)
+	case *ssa.Extract:
+		return operandReaches(x.Tuple, target, depth-1)
+	case *ssa.Slice:
+		for _, e := range variadicElems(x) {
+			if operandReaches(e, target, depth-1) {
+				return true
+			}
+		}
+	}
+	return false
+}
